@@ -10,11 +10,14 @@ PROP = {'streams': [('c13', 2000, 60000)],
  'theorems': ['table_sound', 'pinterp_sound_partial', 'callDRT_every', 'drt_of_canon', 'pinterp_sound_subst', 'pinterp_sound_partial2',
               'pinterpSoundFull_needs_cover', 'reauthorize_eq_fresh', 'reauthorize_eq_fresh_frag', 'reauthorize_eq_fresh_frag2',
               'pinterp_sound_store', 'pinterp_sound_store_reauth', 'pinterp_sound_store_reauth_direct', 'second_round_needed', 'direct_unknown_one_round',
-              'missing_unbound_counterexample', 'partial_definite_sound', 'partial_authorization_sound', 'restricted_eval_sound',
+              'missing_unbound_counterexample', 'partial_definite_sound', 'partial_authorization_sound', 'pinterp_sound_store_on',
+              'pinterp_sound_store_reauth_on', 'partial_definite_sound_on', 'partial_authorization_sound_on', 'restricted_eval_sound',
               'concretize_entry_gives_conc', 'context_substitute_gives_completes'],
  'assumptions': ["error classes are not compared between residual evaluation and concrete evaluation (the property says 'errors')",
                  'unknowns created by a partial store for missing entities are substituted by the entity itself; the completed store is the full '
-                 'store',
+                 'store; in the relativised (_on) theorems this is required only for missing entities whose uid is mentioned by the policies, the '
+                 'request, the mapper, the slot environments or an attribute / tag value of the partial store (PS.mentioned, an over-approximation '
+                 'of the uids dereferenced)',
                  'an unknown nested inside an entity attribute value is only discovered by the reauthorize round that first dereferences the entity '
                  "(documented as 'undiscovered unknowns' in Expr::substitute); a second round with the same substitution is allowed before comparing",
                  'policies calling unknown("x") themselves are only diffed against the model (no concrete counterpart exists)']}
@@ -35,11 +38,14 @@ TEXT = ('Lean theorems over the mirror of partial_interpret (residual arms, best
  'unknown attribute does not, a direct unknown tag does); partial_definite_sound / partial_authorization_sound (policy sets with static and '
  'template-linked policies: a definite partial decision is the concrete decision, must ⊆ determining ⊆ may, and one reauthorize round on the '
  'substituted store equals the fresh concrete authorization — table_sound and reauthorize_eq_fresh with their hypotheses discharged); '
+ 'pinterp_sound_store_on / pinterp_sound_store_reauth_on / partial_definite_sound_on / partial_authorization_sound_on (the same for '
+ '.partial() stores with the binding hypothesis relativised to the finite list of mentioned uids, by a closed-world invariant on every value '
+ 'and residual of the first pass; non-vacuous: an example where the unrelativised hypothesis is false); '
  'pinterpSoundFull_needs_cover (the full statement needs a substitution '
  'that defines every typed unknown); tied to the code by a differential run (partial observable and reauthorized responses), plus the statement '
  'itself evaluated on the implementation for sampled substitutions.',
- 'proof over a hand-written model; pinterp soundness is proved on a fragment (full statement kept as a Prop; missing: .partial() stores '
- 'only under the hypothesis that every missing entity is bound by the substitution (not relativised to the entities dereferenced), the '
+ 'proof over a hand-written model; pinterp soundness is proved on a fragment (full statement kept as a Prop; missing: for .partial() stores the set of uids that must be present or bound '
+ 'over-approximates the uids actually dereferenced, the '
  'one-round statement on the unsubstituted store for direct unknowns only at expression level, residual contexts / attributes specified '
  'through evaluate-after-substitute rather than the restricted evaluator, calls of unknown() in the policy text; record constructors are '
  'assumed to have distinct keys and values to be canonical as Rust holds them); correspondence sampled (harness/src/c13.rs); residual shapes never compared')
